@@ -341,6 +341,15 @@ impl Cartesian<'_> {
             return Err("Stopped".into());
         }
 
+        // The steps of the stroke are solved with the kinematics alone (no shape), so
+        // every waypoint is checked for collisions here before the path is accepted.
+        let collides = trace
+            .par_iter()
+            .any(|step| self.robot.collides(&step.joints));
+        if collides {
+            return Err("Collision detected".into());
+        }
+
         Ok(trace)
     }
 
